@@ -1436,3 +1436,84 @@ Lemma ex_script_run :
   s_msgs o = messages_of None ex_script /\ s_final o = Err ConnectionClosed /\
   s_writes o = [[138; 2; 104; 105]; [129; 5; 104; 101; 108; 108; 111]; [138; 0]; [129; 5; 104; 101; 108; 108; 111]; [136; 2; 3; 232]].
 Proof. vm_compute. repeat split; reflexivity. Qed.
+
+(* ================= every byte stream, two deliveries: the session does not depend on how the bytes were split ================= *)
+Definition same_stream (cs1 cs2 : chunks) : Prop := wf_chunks cs1 /\ wf_chunks cs2 /\ concat cs1 = concat cs2.
+
+Lemma same_stream_total cs1 cs2 : same_stream cs1 cs2 -> total_len cs1 = total_len cs2.
+Proof. intros (_ & _ & H). unfold total_len. now rewrite H. Qed.
+
+Lemma decode_m_same cs1 cs2 :
+  same_stream cs1 cs2 -> Forall byte (concat cs1) ->
+  match decode_m cs1, decode_m cs2 with
+  | (Ok (f1, r1), a1), (Ok (f2, r2), a2) => f1 = f2 /\ same_stream r1 r2 /\ a1 = a2 /\ Forall byte (concat r1)
+  | (Err e1, _), (Err e2, _) => e1 = e2
+  | _, _ => False
+  end.
+Proof.
+  intros (W1 & W2 & Hc) HB.
+  assert (HB2 : Forall byte (firstn 2 (concat cs1))).
+  { rewrite <- (firstn_skipn 2 (concat cs1)) in HB. apply Forall_app in HB. tauto. }
+  pose proof (decode_refines cs1 W1 HB2) as R1. pose proof (decode_refines cs2 W2) as R2.
+  rewrite <- Hc in R2. specialize (R2 HB2). unfold decode in R1, R2.
+  destruct (decode_m cs1) as [x1 a1] eqn:D1. destruct (decode_m cs2) as [x2 a2] eqn:D2. cbn [fst] in R1, R2.
+  destruct (parse_spec (concat cs1)) as [[g r]|e|w]; destruct x1 as [[f1 r1]|e1|w1]; cbn [refines] in R1; try contradiction;
+    destruct x2 as [[f2 r2]|e2|w2]; cbn [refines] in R2; try contradiction.
+  - destruct R1 as (-> & C1 & V1). destruct R2 as (-> & C2 & V2).
+    destruct (decode_m_consumes _ _ _ _ D1) as [_ ->]. destruct (decode_m_consumes _ _ _ _ D2) as [_ ->].
+    split; [reflexivity|]. split; [repeat split; try assumption; congruence|]. split; [reflexivity|].
+    exact (proj2 (decode_m_bytes _ _ _ _ W1 HB D1)).
+  - congruence.
+Qed.
+
+Lemma recv_same : forall n cs1 cs2 acc,
+  total_len cs1 < N.of_nat n -> same_stream cs1 cs2 -> Forall byte (concat cs1) ->
+  r_res (recv_loop on_frame (fuel_of cs1) cs1 acc) = r_res (recv_loop on_frame (fuel_of cs2) cs2 acc) /\
+  r_writes (recv_loop on_frame (fuel_of cs1) cs1 acc) = r_writes (recv_loop on_frame (fuel_of cs2) cs2 acc) /\
+  same_stream (r_rest (recv_loop on_frame (fuel_of cs1) cs1 acc)) (r_rest (recv_loop on_frame (fuel_of cs2) cs2 acc)) /\
+  Forall byte (concat (r_rest (recv_loop on_frame (fuel_of cs1) cs1 acc))).
+Proof.
+  induction n as [|n IH]; intros cs1 cs2 acc Hn SS HB; [lia|].
+  rewrite (recv_loop_unfold (fuel_of cs1) cs1 acc (fuel_of_ok cs1)), (recv_loop_unfold (fuel_of cs2) cs2 acc (fuel_of_ok cs2)).
+  pose proof (decode_m_same cs1 cs2 SS HB) as D.
+  assert (Nil : same_stream [] [] /\ Forall byte (concat [])) by (repeat split; constructor).
+  destruct (decode_m cs1) as [x1 a1] eqn:D1. destruct (decode_m cs2) as [x2 a2] eqn:D2.
+  destruct x1 as [[f1 r1]|e1|w1]; destruct x2 as [[f2 r2]|e2|w2]; try contradiction.
+  - destruct D as (<- & S' & <- & HB'). destruct (decode_m_consumes _ _ _ _ D1) as [T _].
+    destruct (on_frame acc f1) as [acc' w|res w].
+    + destruct (IH r1 r2 acc' ltac:(lia) S' HB') as (I1 & I2 & I3 & I4).
+      cbn [add_write r_res r_writes r_rest]. repeat split; try congruence; try apply I3; assumption.
+    + cbn [r_res r_writes r_rest]. repeat split; try reflexivity; try apply S'; assumption.
+  - subst e2. cbn [r_res r_writes r_rest]. repeat split; try reflexivity; try constructor.
+Qed.
+
+Theorem serve_same_stream echo : forall n cs1 cs2 limit,
+  total_len cs1 < N.of_nat n -> same_stream cs1 cs2 -> Forall byte (concat cs1) ->
+  s_msgs (serve echo limit cs1) = s_msgs (serve echo limit cs2) /\
+  s_final (serve echo limit cs1) = s_final (serve echo limit cs2) /\
+  s_writes (serve echo limit cs1) = s_writes (serve echo limit cs2).
+Proof.
+  induction n as [|n IH]; intros cs1 cs2 limit Hn SS HB; [lia|].
+  rewrite (serve_unfold echo limit cs1), (serve_unfold echo limit cs2).
+  assert (Main : forall l',
+    let mk := fun cs =>
+      match r_res (recv cs) with
+      | Ok m =>
+        let rest := serve echo l' (r_rest (recv cs)) in
+        mkServe (m :: s_msgs rest) (s_final rest)
+                (r_writes (recv cs) ++ (if echo then [send_bytes m] else []) ++ s_writes rest)
+                (N.max (r_alloc (recv cs)) (s_alloc rest))
+      | Err e => mkServe [] (Err e) (r_writes (recv cs) ++ drop_stream (e =? ConnectionClosed)) (r_alloc (recv cs))
+      | Crash w => mkServe [] (Crash w) (r_writes (recv cs)) (r_alloc (recv cs))
+      end in
+    s_msgs (mk cs1) = s_msgs (mk cs2) /\ s_final (mk cs1) = s_final (mk cs2) /\ s_writes (mk cs1) = s_writes (mk cs2)).
+  { intro l'. cbv zeta. unfold recv.
+    destruct (recv_same (S n) cs1 cs2 [] Hn SS HB) as (R1 & R2 & R3 & R4). rewrite <- R1, <- R2.
+    destruct (r_res (recv_loop on_frame (fuel_of cs1) cs1 [])) as [m|e|w] eqn:E; cbn [s_msgs s_final s_writes].
+    - pose proof (recv_loop_rest _ _ _ _ E) as T.
+      destruct (IH (r_rest (recv_loop on_frame (fuel_of cs1) cs1 [])) (r_rest (recv_loop on_frame (fuel_of cs2) cs2 [])) l'
+                   ltac:(lia) R3 R4) as (I1 & I2 & I3). repeat split; congruence.
+    - repeat split; reflexivity.
+    - repeat split; reflexivity. }
+  destruct limit as [[|k]|]; [repeat split; reflexivity|exact (Main _)|exact (Main _)].
+Qed.
